@@ -33,10 +33,10 @@ namespace vh {
     static void reset() { reg() = Reg(); }
 
     explicit Tk(int v = 0) : m_v(v), m_magic(k_alive) { born(); }
-    Tk(const Tk &o) : m_v(o.check().m_v), m_magic(k_alive) { born(); }
+    Tk(const Tk &o) : m_v(o.ok() ? o.m_v : -999), m_magic(k_alive) { born(); }
     Tk &operator=(const Tk &o) {
-      check();
-      m_v = o.check().m_v;
+      const bool a = ok(), b = o.ok();
+      if (a && b) { m_v = o.m_v; }
       return *this;
     }
     ~Tk() {
@@ -47,13 +47,21 @@ namespace vh {
       }
       m_magic = k_dead;
     }
-    int get() const { return check().m_v; }
+    int get() const { return ok() ? m_v : -999; }
     void set(int v) {
-      check();
-      m_v = v;
+      if (ok()) { m_v = v; }
+    }
+    /// the registry decides (the object itself is not read when it is gone): a touch of a destroyed instance is counted, never performed
+    bool ok() const {
+      if (reg().live.count(this) == 0) {
+        ++reg().touched_after;
+        return false;
+      }
+      if (m_magic != k_alive) { ++reg().touched_after; }
+      return true;
     }
     const Tk &check() const {
-      if (m_magic != k_alive || reg().live.count(this) == 0) { ++reg().touched_after; }
+      ok();
       return *this;
     }
     int m_v;
@@ -65,6 +73,12 @@ namespace vh {
       ++reg().constructed;
     }
     volatile unsigned m_magic;
+  };
+
+  /// an object that contains a Tk by value and hands out references into itself (C11: borrowed references)
+  struct Holder {
+    Tk member{21};
+    Tk &inner() { return member; }
   };
 
   struct BaseC {
@@ -102,6 +116,7 @@ namespace vh {
     // values handed to the engine with const_var (the engine holds the object; the driver keeps a handle to read it)
     Boxed_Value cv_int, cv_str, cv_vec, cv_map;
     std::shared_ptr<const Tk> csp_tk = std::make_shared<const Tk>(8);
+    std::shared_ptr<Tk> kept; ///< a shared_ptr the C++ side keeps past the script's scopes (C11)
     // mutable controls shared with the engine: the same chains and mutators must SUCCEED on them (C07 vacuity guard)
     std::shared_ptr<int> nc_int = std::make_shared<int>(41);
     std::shared_ptr<std::string> nc_str = std::make_shared<std::string>("cstr");
@@ -161,6 +176,23 @@ namespace vh {
       chai.add(fun([]() { return std::make_unique<Tk>(5); }), "tk_make_up");
       chai.add(fun([this]() -> const Tk & { return c_tk; }), "tk_cref");
       chai.add(fun([this]() -> const Tk * { return &c_tk; }), "tk_cptr");
+      // containers and holders of instrumented objects, functions returning references into their argument (C11)
+      {
+        auto m = std::make_shared<Module>();
+        bootstrap::standard_library::vector_type<std::vector<Tk>>("TkVec", *m);
+        chai.add(m);
+      }
+      chai.add(fun([]() { return std::vector<Tk>{Tk(11), Tk(12)}; }), "make_tv");
+      chai.add(user_type<Holder>(), "Holder");
+      chai.add(constructor<Holder()>(), "Holder");
+      chai.add(constructor<Holder(const Holder &)>(), "Holder");
+      chai.add(fun(&Holder::inner), "inner");
+      chai.add(fun(&Holder::member), "member");
+      chai.add(fun([]() { return Holder(); }), "make_holder");
+      chai.add(fun([](std::vector<Tk> &v) -> Tk & { return v.front(); }), "first_of");
+      chai.add(fun([this](std::shared_ptr<Tk> t) { kept = std::move(t); }), "tk_keep_sp");
+      chai.add(fun([this]() { return kept ? kept->get() : -1; }), "tk_kept_get");
+      chai.add(fun([this]() { kept.reset(); }), "tk_drop_kept");
       // hierarchy + conversions (C06, C09 saves)
       chai.add(user_type<BaseC>(), "BaseC");
       chai.add(user_type<DerivedC>(), "DerivedC");
